@@ -1569,6 +1569,52 @@ def part_siq(ck, m, tier):
                              {"relation": "push order", "ops": s})
 
 
+# =========================================================================== (D) model-level exhaustive exploration
+
+
+def part_explore(ck, m, tier):
+    """The extracted explorer (Explore.check_path over all enabled event sequences up to a depth) on generated graphs:
+    graph invariant, never stuck, protocol validity, creation order, node-level well-formedness."""
+    quick = tier == "quick"
+    n = 250 if quick else 4000
+    cap = 2e4 if quick else 2e5
+    cases, metas = [], []
+    for _ in range(n):
+        g = gen_graph(ck.rng)
+        c = 2 * len(g["tasks"]) + sum(2 * len(it) + 2 for it in g["streams"].values())
+        depth = 3
+        while depth < 9 and c ** (depth + 1) <= cap:
+            depth += 1
+        cases.append([5, depth] + enc_env(g) + enc_work(g["work0"]))
+        metas.append((g, depth))
+    outs = m.run_batch(cases, timeout=1500)
+    total = 0
+    for (g, depth), out in zip(metas, outs):
+        if out[:1] != [1]:
+            ck.count("explore_decode_errors")
+            continue
+        ok, npaths = out[1], out[2]
+        total += npaths
+        if out[3]:
+            ck.count("explore_flat_graphs")
+        if out[4]:
+            ck.count("explore_graphs_init_ok")
+        else:
+            ck.count("explore_graphs_init_not_ok")
+            ck.extra.setdefault("init_not_ok_samples", [])
+            if len(ck.extra["init_not_ok_samples"]) < 3:
+                ck.extra["init_not_ok_samples"].append(g)
+        key = "explore:" + json.dumps([sorted(g["parents"].items()), sorted(g["tasks"].items()), sorted(g["streams"].items()),
+                                        g["work0"]], default=str)
+        ck.note_case(key, nontrivial=npaths > 3)
+        if not ok:
+            ck.violation(key[:300], f"model-level exploration: an enabled event sequence of length <= {depth} violates the graph invariant / "
+                         "protocol / creation order on this work graph (the model agrees with the implementation on the sampled runs)",
+                         {"relation": "Explore.check_path on every enabled path", "graph": g, "depth": depth, "failing_events": out[5:]})
+    ck.count("explore_graphs", len(cases))
+    ck.count("explore_paths_checked", total)
+
+
 # =========================================================================== entry
 
 
@@ -1599,13 +1645,15 @@ def run(tier):
                "payload stream valid.  (C) all well-formed StreamItemQueue scripts up to a length bound.  non-trivial = the run "
                "produced at least 2 work-queue events / 2 payloads / 1 delivered batch")
     import os
-    parts = os.environ.get("VERIF_C05_PARTS", "wq,e2e,siq").split(",")
+    parts = os.environ.get("VERIF_C05_PARTS", "wq,e2e,siq,explore").split(",")
     if "wq" in parts:
         part_wq(ck, m, tier)
     if "e2e" in parts:
         part_e2e(ck, m, tier)
     if "siq" in parts:
         part_siq(ck, m, tier)
+    if "explore" in parts:
+        part_explore(ck, m, tier)
     return ck.finish()
 
 
